@@ -63,6 +63,10 @@ def shards_for(tier, seed, prop):
         for N in (60000, 100000):
             for olap in (0.5, 0.75):
                 out.append({"prop": prop, "N": N, "fs": 2.0, "tier": tier, "spot": True, "olap": olap})
+    # bins with very many segments (K >= 2^16 needs N > 65536 and a high overlap): one instance beyond any plausible size switch
+    if prop == "C04" or tier != "quick":
+        for olap in (0.9, 0.95) if tier != "quick" else (0.9,):
+            out.append({"prop": prop, "N": 200000, "fs": 2.0, "tier": tier, "spot": True, "olap": olap, "huge": True})
     out.sort(key=lambda s: -s["N"])
     return out
 
@@ -98,15 +102,18 @@ def call_direct(name, cfg, limit=None):
         return None, f"{type(e).__name__}: {e}"
 
 
-def call_analyzer(name, cfg, limit=None):
+def call_analyzer(name, cfg, limit=None, as_callable=False):
+    """Plan through the analyzer; the scheduler is selected by name or (as_callable) by passing the scheduler function itself."""
     limit = limit or _limit(cfg)
     from speckit.analysis import SpectrumAnalyzer
+
+    sched = get_sched(name) if as_callable else name
 
     try:
         with fw.time_limit(limit):
             with np.errstate(all="ignore"):
                 an = SpectrumAnalyzer(np.zeros(cfg["N"]), cfg["fs"], olap=cfg["olap"], bmin=cfg["bmin"],
-                                      Lmin=cfg["Lmin"], Jdes=cfg["Jdes"], Kdes=cfg["Kdes"], scheduler=name,
+                                      Lmin=cfg["Lmin"], Jdes=cfg["Jdes"], Kdes=cfg["Kdes"], scheduler=sched,
                                       win="hann")
                 return an.plan(), None
     except fw.Timeout:
@@ -175,6 +182,15 @@ def check_config(prop, name, cfg):
             if diff:
                 fails.append(fw.fail(f"{name}/analyzer-differs/{'+'.join(diff)}",
                                      f"SpectrumAnalyzer(scheduler={name!r}, {cfgkey(cfg)}).plan() differs from {name}_plan called with the same parameters in {diff} (analyzer nf={len(aplan['f'])}, direct nf={len(plan['f'])})", case))
+    if prop == "C02" and cfg["Jdes"] in (5, 50) and cfg["Kdes"] in (1, 2, 10):
+        # the scheduler handed over as a function object (the other documented way of selecting it)
+        cplan, cerr = call_analyzer(name, cfg, as_callable=True)
+        if cerr is not None:
+            fails.append(fw.fail(f"{name}/analyzer-callable-raises/{rg}",
+                                 f"SpectrumAnalyzer(scheduler=<function {name}_plan>, {cfgkey(cfg)}).plan() raised {cerr}", case))
+        else:
+            for tag, msg in spec.c02(cplan, cfg, name):
+                fails.append(fw.fail(f"{name}/analyzer-callable/{tag}/{rg}", f"analyzer plan via function {name}_plan ({cfgkey(cfg)}): {msg}", case))
     if prop == "C03" and name == "lpsd":
         p2, e2 = call_direct("ltf", dict(cfg, bmin=1.0, Lmin=1))
         if e2 is None:
@@ -196,6 +212,8 @@ def run_shard_for(shard):
     spot = shard.get("spot")
     if spot:
         olaps, Jd, Kd = [shard["olap"]], [50, 500], [10, 100]
+        if shard.get("huge"):
+            Jd, Kd = [50], [10]
     evals = nontriv = rejected = 0
     fails, samples = [], []
     seen = set()
@@ -208,7 +226,28 @@ def run_shard_for(shard):
         plans = {}
         for name in SCHEDS:
             if name == "lpsd" and (bmin != 1.0 or Lmin != 1):
-                continue  # lpsd ignores bmin/Lmin: one representative is enough
+                # lpsd ignores bmin/Lmin: one representative is enough for the scheduler itself; an analyzer *configured* with
+                # other values must still build the (same) LPSD plan, whichever way the scheduler is named
+                if prop == "C02" and J in (5, 50) and K in (2, 10):
+                    eff = dict(cfg, bmin=1.0, Lmin=1)
+                    for as_callable in (False, True):
+                        evals += 1
+                        how = "function lpsd_plan" if as_callable else "'lpsd'"
+                        aplan, aerr = call_analyzer("lpsd", cfg, as_callable=as_callable)
+                        if aerr is not None:
+                            res_ = [("raises", f"raised {aerr}")]
+                        else:
+                            try:
+                                res_ = spec.c02(aplan, eff, "lpsd")
+                            except Exception as e:  # noqa: BLE001
+                                res_ = [("malformed", f"{type(e).__name__}: {e}")]
+                        for tag, msg in res_:
+                            key = f"lpsd/analyzer-configured-{'callable' if as_callable else 'name'}/{tag}"
+                            if key not in seen:
+                                seen.add(key)
+                                fails.append(fw.fail(key, f"SpectrumAnalyzer(scheduler={how}, {cfgkey(cfg)}).plan(): {msg}",
+                                                     {"sched": "lpsd-configured", "cfg": cfg, "prop": prop, "callable": as_callable}))
+                continue
             fl, plan = check_config(prop, name, cfg)
             evals += 1
             if plan is not None:
@@ -240,6 +279,11 @@ def run_shard_for(shard):
 
 def replay_for(case):
     logging.disable(logging.CRITICAL)
+    if case["sched"] == "lpsd-configured":
+        cfg = case["cfg"]
+        aplan, aerr = call_analyzer("lpsd", cfg, as_callable=case["callable"])
+        res_ = [("raises", f"raised {aerr}")] if aerr is not None else spec.c02(aplan, dict(cfg, bmin=1.0, Lmin=1), "lpsd")
+        return [fw.fail(f"lpsd/analyzer-configured-{'callable' if case['callable'] else 'name'}/{tag}", f"({cfgkey(cfg)}): {msg}", case) for tag, msg in res_]
     if case["sched"] == "vec-vs-ltf":
         cfg = case["cfg"]
         pa, ea = call_direct("ltf", cfg)
